@@ -61,6 +61,20 @@ Theorem C32_sleep_guard_consistent :
 Proof. exact sleep_guard_consistent. Qed.
 Print Assumptions C32_sleep_guard_consistent.
 
+(* which bits each host guard mentions is a committed table (dropping a bit from any guard breaks it) *)
+Theorem C32_guard_bits_committed :
+  (forall q, In q guard_bits -> gb_mem q guard_bits_expected = true) /\
+  (forall q, In q guard_bits_expected -> gb_mem q guard_bits = true).
+Proof. exact guard_bits_committed. Qed.
+Print Assumptions C32_guard_bits_committed.
+
+(* forward.implicit's implicitfast guard mentions exactly ACTUATION, DAMPER, SPRING, is false only when all
+   three are disabled, and mentions every bit the host tests of derivative.deriv_smooth_vel mention;
+   forward.euler's guard mentions exactly DAMPER, EULERDAMP and is true only when neither is disabled *)
+Theorem C32_integrator_guards : implicit_guard_ok = true /\ euler_guard_ok = true.
+Proof. exact integrator_guards_ok. Qed.
+Print Assumptions C32_integrator_guards.
+
 (* ---- general facts about the analysis ----------------------------------------------------------- *)
 (* taint is sound: two runs under valuations that agree on every condition outside cs, from stores that
    agree outside T, agree afterwards outside [taint cs l T] *)
